@@ -228,6 +228,58 @@ FILL_GUARANTEES_DATA = {   # reviewed by reading: Ok(()) from the fill step impl
 TERMINAL = ('Done',)
 
 
+def stage_buffer_advanced_by_what_was_copied(ctx, P):
+    """A reader that hands out `min(buf.len(), stage.remaining())` octets of an internal stage buffer must afterwards advance that
+    buffer by exactly what it copied (`copy_to_slice` / `advance(n)`); emptying it (`clear`, `truncate(0)`, a fresh buffer) after a copy
+    that may have been partial drops the tail whenever the caller's buffer was the smaller one.  In every `Read::read`, no path leads
+    from a copy out of a stage buffer into the caller's buffer to a reset of that same buffer without passing a test of its emptiness."""
+    from rules.common import single_defs
+    from rules.c19 import _root_place
+    n = 0
+    for p, r in sorted(ctx.f.bodies.items()):
+        if not p.endswith('as std::io::Read>::read') or '::tests::' in p or r['nargs'] < 2:
+            continue
+        b = ctx.wrap(r)
+        defs = single_defs(b)
+        outs = []
+        for i, t in b.calls(r'\[T\]::copy_from_slice$|slice::<impl \[T\]>::copy_from_slice$|Buf::copy_to_slice$|bytes::BytesMut::copy_to_slice$'):
+            if len(t['args']) < 2:
+                continue
+            dst, src = (t['args'][0], t['args'][1]) if 'copy_from_slice' in t['f']['fn'] else (t['args'][1], t['args'][0])
+            if not has_origin(b.operand_origins(dst), r'^param:2$'):
+                continue
+            rp = _root_place(b, src, defs)
+            # follow an index expression `&stage[..n]` back to the stage buffer
+            k = 0
+            while rp is not None and not rp[1] and k < 4:
+                d = defs.get(rp[0])
+                if d is not None and d[1].get('k') == 'call' and re.search(r'ops::Index(Mut)?::index(_mut)?$', d[1]['f'].get('fn', '') or '') and d[1]['args']:
+                    rp = _root_place(b, d[1]['args'][0], defs)
+                    k += 1
+                    continue
+                break
+            if rp is not None:
+                outs.append((i, rp))
+        if not outs:
+            continue
+        resets = [(i, _root_place(b, t['args'][0], defs)) for i, t in b.calls(r'(BytesMut|Vec::<.*>|Bytes|VecDeque::<.*>)::(clear|truncate)$') if t['args']]
+        for i, rp in outs:
+            n += 1
+            tests = set(j for j, tt in b.switches() if has_origin(b.switch_origins(j), r'call:.*(Buf::has_remaining|Buf::remaining|::is_empty|::len)$'))
+            bad = None
+            for j, rq in resets:
+                if rq != rp:
+                    continue
+                nxt = b.blocks[i]['t'].get('t')
+                if nxt is not None and b.find_path(nxt, {j}, removed=frozenset(tests)) is not None:
+                    bad = j
+            ctx.check('%s:S09-9:stage-buffer-advanced-not-reset:%s#%d' % (P, p, [x for x, _ in outs].index(i)), 'R-pair',
+                      '%s advances its stage buffer by what it copied out (no reset of a possibly non-empty buffer)' % p[1:].split(' as ')[0].split('::')[-1].split('<')[0],
+                      bad is None, function=p, site=site(b, bad) if bad is not None else site(b, i),
+                      missing=None if bad is None else 'the buffer copied from at %s is emptied at %s with no emptiness test in between: what did not fit into the caller\'s buffer is lost' % (site(b, i), site(b, bad)))
+    ctx.floor(P + ':S09-9:floor', 'copies out of a stage buffer into the caller\'s buffer', n, 8)
+
+
 def zero_result_of_empty_request(ctx, P):
     """A reader that hands (part of) the caller's buffer to an inner reader and takes a 0 result as "this stage is finished" must not
     do so for an EMPTY request: `read(&mut [])` yields 0 from any reader at any time.  In every `Read::read` that passes (a sub-slice of)
